@@ -56,6 +56,9 @@ cfg('cg-digit-labels', '{#A=[>1][#a][#b][<2],#B=[>2][#c][#d][<1],#C=[<1][#e]}', 
 cfg('cg-term-cap-only', '{#BB=[>][#B][<][>A],#SC=[<A][#S][>A][$A],#CAP=[$B][#T]}',
     {'<': 0.2, '>': 0.2, '>A': 0.5, '<A': 0.5, '$A': 0.5, '$B': 0.0}, masses={'BB': 2, 'SC': 1, 'CAP': 1},
     terminals=['$B'], freact={'$A': {'$A': 0, '$B': 1.0}}, start='BB', targets=(2, 3))
+# a full square conditional table: entries for descriptors that are not complementary to the chosen site must be ignored
+cfg('cg-fullmatrix', '{#A=[$][#X][>],#B=[<][#Y][$],#C=[>][#Z][<]}', {'$': 1, '>': 1, '<': 1}, masses={'A': 1, 'B': 1, 'C': 1},
+    freact={k: {'$': 1.0, '>': 1.0, '<': 1.0} for k in ('$', '>', '<')}, targets=(1, 2))
 cfg('cg-four', '{#A=[$][#X][$],#B=[>][#Y][<],#C=[$][#Z][>],#D=[<][#W]}', {'$': 1, '>': 1, '<': 1},
     masses={'A': 1, 'B': 1, 'C': 1, 'D': 1}, targets=(1, 2), quick=False)
 cfg('aa-pe', '{#PE=[$]CC[$],#OH=[$]O}', {'$': 1}, all_atom=True, targets=(1, 30))
@@ -269,8 +272,11 @@ def evaluate(inp, oracle='wellformed'):
     if inp.get('kind') == 'history':
         fresh_s, fresh_m, fresh_e = run_path(c, inp['target'], inp['path'], ch)
         sampler = make_sampler(c)
-        sample_on(sampler, c, inp['target'], inp['first'], ch)
-        m2, e2 = sample_on(sampler, c, inp['target'], inp['path'], ch)
+        try:
+            sample_on(sampler, c, inp['target'], inp['first'], ch)
+            m2, e2 = sample_on(sampler, c, inp['target'], inp['path'], ch)
+        except own.ReplayDivergence as e:
+            return bad('history:choice-points-differ-from-fresh-sampler', None, {'config': inp['config'], 'divergence': str(e)})
         if (m2 is None) != (fresh_m is None) or (m2 is not None and dump(m2) != dump(fresh_m)):
             return bad('history:second-sample-differs-from-fresh-sampler', None, {'config': inp['config']})
         return Verdict()
@@ -373,9 +379,16 @@ def run_history(task, R, c):
             sampler = make_sampler(c)
             lib0 = lib_dump(sampler)
             inp = {'kind': 'history', 'config': task['config'], 'target': task['target'], 'first': p1[0], 'path': p2[0]}
-            m1, e1 = sample_on(sampler, c, task['target'], p1[0], ch)
-            m2, e2 = sample_on(sampler, c, task['target'], p2[0], ch)
             n += 1
+            try:
+                m1, e1 = sample_on(sampler, c, task['target'], p1[0], ch)
+                m2, e2 = sample_on(sampler, c, task['target'], p2[0], ch)
+            except own.ReplayDivergence as e:
+                # the answers that drive a fresh sampler along this path are not even enabled here: the choice points
+                # offered by this sampler depend on what an earlier call (or an earlier sampler) left behind
+                R.record(inp, bad('history:choice-points-differ-from-fresh-sampler', None,
+                                  {'config': task['config'], 'divergence': str(e)}))
+                continue
             if (m2 is None) != (p2[1] is None) or (m2 is not None and dump(m2) != p2[1]):
                 R.record(inp, bad('history:second-sample-differs-from-fresh-sampler', None,
                                   {'first_call': 'dead end' if m1 is None else 'returned', 'config': task['config']}))
